@@ -243,7 +243,7 @@ class Builder:
                     return dec(o[1])
                 if o[0] == "b":
                     return BadBool()     # the truth test raises TypeError where the value is used
-                raise {"Boom": Boom, "ValueError": ValueError, "KeyError": KeyError}[o[1]]()
+                raise {"Boom": Boom, "ValueError": ValueError, "KeyError": KeyError, "StopIteration": StopIteration}[o[1]]()
 
             def tab(m):
                 key = selector(sel, m)
@@ -266,6 +266,22 @@ class Builder:
             if kind == "vt":
                 return Named(lambda m: get(expr, m, default=None, trace=self.tracer), lab)
             return Named(lambda m: get(expr, m), lab)
+        if k == "below2":
+            # as `below`, but the predicate looks at its Match *after* the nested search that went through
+            # the same filter step (the same PredicateVertex object) has returned
+            first, tabp = p[1], p[2]
+            tab = self.pred(tabp, depth + 1)
+            holder = {}
+
+            def below_p2(m):
+                r = holder["H"](m) if isinstance(m.data, (dict, list)) else False
+                t = tab(m)
+                return t if t else r
+
+            inner = self.logged(Named(below_p2, "below2-P:" + repr(tab)), depth + 1)
+            expr = self.step(self.root, first, depth + 1)[inner]
+            holder["H"] = has(expr)
+            return holder["H"]
         if k == "below":
             # a has-predicate reused inside its own filter: "some node below this one satisfies
             # `tab`", written as H = has(path.<first>[P]) with P(m) = tab(m) or H(m)
